@@ -55,7 +55,14 @@ def didJ : DataId → JVal
 def jDid : JVal → Option DataId
   | .num i => some (.int i)
   | .str s => some (.str s)
+  | .bool b => some (.int (if b then 1 else 0))   -- `True == 1`, `hash(True) == 1`: the same dictionary key
   | _ => none
+
+/-- a `data_id` argument that cannot be a dictionary key (JSON list / object): TypeError in `_register`. -/
+def didUnhashable (d : List (String × JVal)) : Bool :=
+  match d.lookup "data_id" with
+  | some (.arr _) | some (.obj _) => true
+  | _ => false
 
 /-- dict assignment `d[k] = v` (overwrite keeps the position, a new key is appended). -/
 def setField (d : Fields) (k : String) (v : JVal) : Fields :=
@@ -165,12 +172,18 @@ def lookupF (d : Fields) (k : String) : Option JVal := d.lookup k
 /-- `"nutree/" in str(generator)`. -/
 def hasNutree (s : String) : Bool := (s.splitOn "nutree/").length > 1
 
-/-- `Tree._uncompress_entry`. -/
+/-- Python `vals[i]` for an `int` index: a negative index counts from the end; `none` = IndexError. -/
+def pyIndex {α} (vals : List α) (i : Int) : Option α :=
+  if i < 0 then (if (vals.length : Int) + i < 0 then none else vals[((vals.length : Int) + i).toNat]?)
+  else vals[i.toNat]?
+
+/-- `Tree._uncompress_entry` (`none` = IndexError: a number that is not an index of its value list). -/
 def uncompress (inverseKeyMap : List (String × String)) (valueMap : List (String × List JVal)) (d : Fields) : Option Fields :=
   d.mapM fun (k, v) =>
     let long := (inverseKeyMap.lookup k).getD k
     match v, valueMap.lookup long with
-    | .num i, some vals => if i < 0 then none else (vals[i.toNat]?).map fun x => (long, x)
+    | .num i, some vals => (pyIndex vals i).map fun x => (long, x)
+    | .bool b, some vals => (vals[if b then 1 else 0]?).map fun x => (long, x)   -- `isinstance(True, int)`
     | _, _ => some (long, v)
 
 /-- result of the deserialisation mapper. -/
@@ -179,42 +192,121 @@ inductive DRes where
   | notImplemented
   | error
 
-/-- `_from_list` (plain and typed): `strAtom s` finds the data object for a plain string,
-`deser parent d` is `call_mapper(mapper, parent, d)`. -/
+/-- state of the loop of `_from_list`: the tree, the next fresh node identity, `node_idx_map`
+(entry index ↦ node identity; index 0 is the system root). -/
+abbrev FState := Tree × Nat × List (Nat × NodeId)
+
+/-- the body of the loop of `_from_list` (plain and typed) for an entry whose payload is a `str`,
+a non-negative `int` or a `dict`, once `parent = node_idx_map[parent_idx]` has been found:
+`strAtom s` finds the data object for a plain string, `deser d` is `call_mapper(mapper, parent, d)`.
+
+A reference that resolves to the system root (index 0, or JSON `false`) makes `add_child` call
+`child.__class__(data, parent=…)` = `_SystemRootNode(data, parent=…)`, whose constructor only takes
+the tree: TypeError. -/
+def fromListBody (typed : Bool) (strAtom : String → Atom) (deser : Fields → DRes)
+    (t : Tree) (next : Nat) (idxMap : List (Nat × NodeId)) (parent : NodeId) (pl : Payload) :
+    Except Err FState :=
+  let idx := idxMap.length        -- the entry being read has index = number of entries so far (root is 0)
+  match pl with
+  | .str s =>
+    (t.addData next parent (strAtom s) .none none (if typed then some "child" else none)).map fun t1 =>
+      (t1, next + 1, idxMap ++ [(idx, next)])
+  | .ref k =>
+    match idxMap.lookup k with
+    | none => .error .key
+    | some first =>
+      if first = 0 then .error .type
+      else
+      match findT first t.root with
+      | none => .error .key
+      | some fc =>
+        let (t1, n1, e) := t.addNode next parent fc true (t.parentId first) .none none (some fc.did) (if typed then fc.kind else none)
+        match e with
+        | some e => .error e
+        | none => .ok (t1, n1, idxMap ++ [(idx, next)])
+  | .dict d =>
+    let did := (lookupF d "data_id").bind jDid
+    let kind := if typed then some (match lookupF d "kind" with | some (.str k) => k | _ => "child") else none
+    match deser d with
+    | .notImplemented => .error .notImplemented
+    | .error => .error .callback
+    | .atom a =>
+      if didUnhashable d then .error .type
+      else (t.addData next parent a .none did kind).map fun t1 => (t1, next + 1, idxMap ++ [(idx, next)])
+
+/-- one iteration of `_from_list` on a well-shaped entry `(parent_idx, payload)`. -/
+def fromListStep (typed : Bool) (strAtom : String → Atom) (deser : Fields → DRes)
+    (acc : Except Err FState) (r : Nat × Payload) : Except Err FState :=
+  match acc with
+  | .error e => .error e
+  | .ok (t, next, idxMap) =>
+    match idxMap.lookup r.1 with
+    | none => .error .key
+    | some parent => fromListBody typed strAtom deser t next idxMap parent r.2
+
+/-- the state `_from_list` starts with: an empty tree of the class, `node_idx_map = {0: root}`. -/
+def fromListInit (typed : Bool) : Except Err FState := .ok ({ typed := typed }, 1, [(0, 0)])
+
+/-- the loop of `_from_list` on well-shaped entries: the state after the last entry. -/
+def fromListState (typed : Bool) (strAtom : String → Atom) (deser : Fields → DRes) (rows : List (Nat × Payload)) :
+    Except Err FState :=
+  rows.foldl (fromListStep typed strAtom deser) (fromListInit typed)
+
+/-- `_from_list` on well-shaped entries (what `to_list_iter` writes). -/
 def fromList (typed : Bool) (strAtom : String → Atom) (deser : Fields → DRes) (rows : List (Nat × Payload)) :
     Except Err Tree :=
-  let step := fun (acc : Except Err (Tree × Nat × List (Nat × NodeId))) (r : Nat × Payload) =>
-    match acc with
-    | .error e => .error e
-    | .ok (t, next, idxMap) =>
-      let idx := idxMap.length        -- the entry being read has index = number of entries so far (root is 0)
-      match idxMap.lookup r.1 with
+  (fromListState typed strAtom deser rows).map (·.1)
+
+/-! #### arbitrary entries
+
+`json.load` may hand anything to `_from_list`; the two components of an entry as the loop body
+uses them: -/
+
+/-- `parent_idx` as a key of `node_idx_map`. -/
+inductive PKey where
+  | idx (n : Nat)        -- a non-negative int (`true`/`false` are the ints 1/0)
+  | absent               -- hashable but never a key (negative int, `null`, str): KeyError
+  | unhashable           -- list / dict: TypeError
+deriving Repr, Inhabited
+
+/-- the second component of an entry. -/
+inductive Cell where
+  | pl (p : Payload)     -- str, non-negative int (or bool), dict
+  | negRef               -- a negative int: `node_idx_map[data]` → KeyError
+  | notDict              -- `null` / list: `assert isinstance(data, dict)` (Tree), `data.get` (TypedTree)
+deriving Repr, Inhabited
+
+/-- one iteration of `_from_list` on an arbitrary entry: the parent lookup comes first, then the
+type dispatch on the payload. -/
+def fromListStepG (typed : Bool) (strAtom : String → Atom) (deser : Fields → DRes)
+    (acc : Except Err FState) (r : PKey × Cell) : Except Err FState :=
+  match acc with
+  | .error e => .error e
+  | .ok (t, next, idxMap) =>
+    match r.1 with
+    | .unhashable => .error .type
+    | .absent => .error .key
+    | .idx p =>
+      match idxMap.lookup p with
       | none => .error .key
       | some parent =>
         match r.2 with
-        | .str s =>
-          (t.addData next parent (strAtom s) .none none (if typed then some "child" else none)).map fun t1 =>
-            (t1, next + 1, idxMap ++ [(idx, next)])
-        | .ref k =>
-          match idxMap.lookup k with
-          | none => .error .key
-          | some first =>
-            match findT first t.root with
-            | none => .error .key
-            | some fc =>
-              let (t1, n1, e) := t.addNode next parent fc true (t.parentId first) .none none (some fc.did) (if typed then fc.kind else none)
-              match e with
-              | some e => .error e
-              | none => .ok (t1, n1, idxMap ++ [(idx, next)])
-        | .dict d =>
-          let did := (lookupF d "data_id").bind jDid
-          let kind := if typed then some (match lookupF d "kind" with | some (.str k) => k | _ => "child") else none
-          match deser d with
-          | .notImplemented => .error .notImplemented
-          | .error => .error .callback
-          | .atom a =>
-            (t.addData next parent a .none did kind).map fun t1 => (t1, next + 1, idxMap ++ [(idx, next)])
-  (rows.foldl step (.ok ({ typed := typed }, 1, [(0, 0)]))).map (·.1)
+        | .negRef => .error .key
+        | .notDict => .error (if typed then .attribute else .assertion)
+        | .pl pl => fromListBody typed strAtom deser t next idxMap parent pl
+
+/-- the loop of `_from_list` on arbitrary entries: the state after the last entry. -/
+def fromListStateG (typed : Bool) (strAtom : String → Atom) (deser : Fields → DRes) (rows : List (PKey × Cell)) :
+    Except Err FState :=
+  rows.foldl (fromListStepG typed strAtom deser) (fromListInit typed)
+
+/-- `_from_list` on arbitrary entries. -/
+def fromListG (typed : Bool) (strAtom : String → Atom) (deser : Fields → DRes) (rows : List (PKey × Cell)) :
+    Except Err Tree :=
+  (fromListStateG typed strAtom deser rows).map (·.1)
+
+/-- a well-shaped row `(parent index, payload)` as an arbitrary entry. -/
+def liftRow (r : Nat × Payload) : PKey × Cell := (.idx r.1, .pl r.2)
 
 def payloadOfJ : JVal → Option Payload
   | .str s => some (.str s)
@@ -222,7 +314,65 @@ def payloadOfJ : JVal → Option Payload
   | .obj d => some (.dict d)
   | _ => none
 
-/-- `Tree.load` on a JSON value: header check, `file_meta`, un-compression, `_from_list`. -/
+/-- `for _parent_idx, data in obj["nodes"]`: unpacking one element into two values.  A list of
+another length, a string of length ≠ 2, an object with ≠ 2 keys: ValueError; a string of length 2
+unpacks into its characters and an object with two keys into the keys; anything else is not
+iterable: TypeError. -/
+def unpackEntry : JVal → Except Err (JVal × JVal)
+  | .arr [a, b] => .ok (a, b)
+  | .arr _ => .error .value
+  | .str s => match s.toList with
+    | [a, b] => .ok (.str (String.singleton a), .str (String.singleton b))
+    | _ => .error .value
+  | .obj [(k1, _), (k2, _)] => .ok (.str k1, .str k2)
+  | .obj _ => .error .value
+  | _ => .error .type
+
+def pkeyOfJ : JVal → PKey
+  | .num i => if i < 0 then .absent else .idx i.toNat
+  | .bool b => .idx (if b then 1 else 0)
+  | .null | .str _ => .absent
+  | .arr _ | .obj _ => .unhashable
+
+/-- the payload as `_from_list` will see it; a dict is un-compressed first (`none` = IndexError). -/
+def cellOfJ (km : List (String × String)) (vm : List (String × List JVal)) : JVal → Option Cell
+  | .str s => some (.pl (.str s))
+  | .num i => some (if i < 0 then .negRef else .pl (.ref i.toNat))
+  | .bool b => some (.pl (.ref (if b then 1 else 0)))
+  | .obj d => (uncompress km vm d).map fun d' => .pl (.dict d')
+  | .null | .arr _ => some .notDict
+
+/-- the first loop of `load` over `obj["nodes"]` (unpack, un-compress dict payloads), entry by
+entry; the first failure is raised. -/
+def decodeNodes (km : List (String × String)) (vm : List (String × List JVal)) :
+    List JVal → Except Err (List (PKey × Cell))
+  | [] => .ok []
+  | e :: es =>
+    match unpackEntry e with
+    | .error err => .error err
+    | .ok (a, b) =>
+      match cellOfJ km vm b with
+      | none => .error .index
+      | some c =>
+        match decodeNodes km vm es with
+        | .error err => .error err
+        | .ok rs => .ok ((pkeyOfJ a, c) :: rs)
+
+/-- the inverse key map `load` builds from the header (`meta["$key_map"]`, short → long). -/
+def loadKm (hdr : Fields) : List (String × String) :=
+  match lookupF hdr "$key_map" with
+  | some (.obj l) => l.filterMap fun (k, v) => match v with | .str s => some (s, k) | _ => none
+  | _ => []
+
+/-- the value map `load` reads from the header. -/
+def loadVm (hdr : Fields) : List (String × List JVal) :=
+  match lookupF hdr "$value_map" with
+  | some (.obj l) => l.filterMap fun (k, v) => match v with | .arr a => some (k, a) | _ => none
+  | _ => []
+
+/-- `Tree.load` on a JSON value: header check, `file_meta`, un-compression, `_from_list`.
+(Header values of unexpected types — a `meta` that is not an object, maps that are not objects of
+strings / lists — are outside the model: they are treated as missing.) -/
 def loadJ (typed : Bool) (strAtom : String → Atom) (deser : Fields → DRes) (doc : JVal) : Except Err (Tree × Fields) :=
   match doc with
   | .obj top =>
@@ -233,24 +383,9 @@ def loadJ (typed : Bool) (strAtom : String → Atom) (deser : Fields → DRes) (
         let gs := match g with | .str s => s | _ => ""
         if !hasNutree gs then .error .runtime
         else
-          let km : List (String × String) := match lookupF hdr "$key_map" with
-            | some (.obj l) => l.filterMap fun (k, v) => match v with | .str s => some (s, k) | _ => none
-            | _ => []
-          let vm : List (String × List JVal) := match lookupF hdr "$value_map" with
-            | some (.obj l) => l.filterMap fun (k, v) => match v with | .arr a => some (k, a) | _ => none
-            | _ => []
-          let rows : Option (List (Nat × Payload)) := nodes.mapM fun e =>
-            match e with
-            | .arr [.num p, x] =>
-              if p < 0 then none else
-              (payloadOfJ x).bind fun pl =>
-                match pl with
-                | .dict d => (uncompress km vm d).map fun d' => (p.toNat, Payload.dict d')
-                | other => some (p.toNat, other)
-            | _ => none
-          match rows with
-          | none => .error .other
-          | some rows => (fromList typed strAtom deser rows).map fun t => (t, hdr)
+          match decodeNodes (loadKm hdr) (loadVm hdr) nodes with
+          | .error e => .error e
+          | .ok rows => (fromListG typed strAtom deser rows).map fun t => (t, hdr)
       | none => .error .runtime
     | _, _ => .error .runtime
   | _ => .error .runtime
@@ -270,7 +405,64 @@ def toDictL (ser : T → Fields → Option Fields) : List T → List JVal
   | t :: ts => toDict ser t :: toDictL ser ts
 end
 
-/-- `from_dict`, with fuel for the nesting depth: `some deser` = a mapper is given. -/
+/-- CPython's `hash(i)` for an `int`: sign · (|i| mod (2^61 − 1)), and −1 is replaced by −2. -/
+def pyHashInt (i : Int) : Int :=
+  let m : Int := 2305843009213693951
+  let h := if i < 0 then -((-i) % m) else i % m
+  if h = -1 then -2 else h
+
+/-- `item["data"]` used as the data object as it is (no mapper): a string is looked up with
+`strAtom`; a number, `true`/`false`, `null` are the Python objects `int`, `bool`, `None` (hashable:
+they become data objects; `hash(None)` is the constant of CPython ≥ 3.12); a list / dict is
+unhashable (`none`, see `itemData`). -/
+def scalarAtom (strAtom : String → Atom) : JVal → Option Atom
+  | .str s => some (strAtom s)
+  | .num i =>
+    let c := 800000 + 2 * (if i < 0 then 2 * (-i).toNat - 1 else 2 * i.toNat)
+    some { obj := c, eqc := c, hid := .int (pyHashInt i), truthy := i != 0, isStr := false, name := toString i }
+  | .bool b =>
+    let c := 800000 + 2 * (if b then 2 else 0)
+    some { obj := c + 1, eqc := c, hid := .int (if b then 1 else 0), truthy := b, isStr := false,
+           name := if b then "True" else "False" }
+  | .null => some { obj := 799999, eqc := 799999, hid := .int 4238894112, truthy := false, isStr := false, name := "None" }
+  | .arr _ | .obj _ => none
+
+/-- a JSON list / dict used as data object (only possible under an explicit `data_id`); its
+`str()` is not modelled. -/
+def compoundAtom (v : JVal) : Atom :=
+  let nonEmpty := match v with | .arr l => !l.isEmpty | .obj o => !o.isEmpty | _ => true
+  { obj := 799998, eqc := 799998, hid := .int 0, truthy := nonEmpty, isStr := false, name := "<json>" }
+
+/-- `child_items = item.get("children"); if child_items: child.from_dict(child_items)`: a falsy
+value is skipped; a truthy value that is not a list is iterated (number / `true`: not iterable; a
+string yields characters and a dict its keys, and `"x"["data"]` fails): TypeError (no mapper). -/
+def childItems (d : Fields) : Except Err (List JVal) :=
+  match lookupF d "children" with
+  | none | some .null => .ok []
+  | some (.arr l) => .ok l
+  | some (.bool b) => if b then .error .type else .ok []
+  | some (.num i) => if i = 0 then .ok [] else .error .type
+  | some (.str s) => if s = "" then .ok [] else .error .type
+  | some (.obj o) => if o.isEmpty then .ok [] else .error .type
+
+/-- the data object of an item: `call_mapper(mapper, self, item)` resp. `item["data"]`. -/
+def itemData (strAtom : String → Atom) (deser : Option (Fields → DRes)) (d : Fields) : Except Err Atom :=
+  match deser with
+  | some m => (match m d with
+    | .atom a => .ok a
+    | .notImplemented => .error .notImplemented
+    | .error => .error .callback)
+  | none => match lookupF d "data" with
+    | none => .error .key                         -- `item["data"]`
+    | some v => match scalarAtom strAtom v with
+      | some a => .ok a
+      | none =>
+        -- a list / dict as data object: unhashable, so `calc_data_id` raises TypeError — unless an
+        -- explicit `data_id` is given (then the data is never hashed)
+        if ((lookupF d "data_id").bind jDid).isSome then .ok (compoundAtom v) else .error .type
+
+/-- `Node.from_dict` (the loop; the `assert not self._children` at the entry is `fromDict`), with
+fuel for the nesting depth: `some deser` = a mapper is given.  The key `node_id` is not modelled. -/
 def fromDictL (strAtom : String → Atom) (deser : Option (Fields → DRes)) :
     Nat → List JVal → Tree → NodeId → NodeId → Except Err (Tree × NodeId)
   | 0, _, t, _, next => .ok (t, next)
@@ -278,23 +470,29 @@ def fromDictL (strAtom : String → Atom) (deser : Option (Fields → DRes)) :
   | f + 1, item :: rest, t, parent, next =>
     match item with
     | .obj d =>
-      let dataR : DRes := match deser with
-        | some m => m d
-        | none => match lookupF d "data" with
-          | some (.str s) => .atom (strAtom s)
-          | _ => .error
-      match dataR with
-      | .notImplemented => .error .notImplemented
-      | .error => .error .key
-      | .atom a =>
+      match itemData strAtom deser d with
+      | .error e => .error e
+      | .ok a =>
+        if didUnhashable d then .error .type
+        else
         match t.addData next parent a .none ((lookupF d "data_id").bind jDid) none with
         | .error e => .error e
         | .ok t1 =>
-          let kids := match lookupF d "children" with | some (.arr l) => l | _ => []
-          match fromDictL strAtom deser f kids t1 next (next + 1) with
+          match childItems d with
           | .error e => .error e
-          | .ok (t2, n2) => fromDictL strAtom deser (f + 1) rest t2 parent n2
+          | .ok kids =>
+            match fromDictL strAtom deser f kids t1 next (next + 1) with
+            | .error e => .error e
+            | .ok (t2, n2) => fromDictL strAtom deser (f + 1) rest t2 parent n2
     | _ => .error .type
+
+/-- `node.from_dict(obj)` on the node `parent` of an existing tree: `assert not self._children`,
+then the loop. -/
+def fromDict (strAtom : String → Atom) (deser : Option (Fields → DRes)) (fuel : Nat) (items : List JVal)
+    (t : Tree) (parent next : NodeId) : Except Err (Tree × NodeId) :=
+  match findT parent t.root with
+  | none => .error .other
+  | some p => if p.kids.isEmpty then fromDictL strAtom deser fuel items t parent next else .error .assertion
 
 end Ser
 end Nutree
